@@ -137,6 +137,25 @@ def call_path(I, path, args, e, env, arg_nodes=None, ci=None):
     m = find_model(path)
     if m is None and ci.get("path"):
         m = find_model(ci["path"])
+    if m is None and ci.get("trait") and (ci.get("local") or str(ci.get("trait")).split("::")[0] in ("r1cs", "util", "generators", "transcript", "inner_product_proof", "errors")):
+        # a method of one of the crate's own traits called on a generic `Self`: dispatch on the receiver's concrete type
+        if args is None:
+            args = eval_args(I, arg_nodes, env, ())
+        recv = I.deref(args[0]) if args else None
+        tname = path.split("::")[-1]
+        if isinstance(recv, Struct):
+            import re as _re
+
+            rx = _re.compile(r"<" + _re.escape(recv.path) + r"(<.*>)? as " + _re.escape(str(ci["trait"])) + r"(<.*>)?>::" + _re.escape(tname) + r"$")
+            hits = [p_ for p_ in I.F.fns if rx.match(p_)]
+            if len(hits) == 1:
+                ptys = [p_["ty"] for p_ in I.F.fns[hits[0]]["params"]]
+                args2 = eval_args(I, arg_nodes, env, (), ptys) if arg_nodes is not None else args
+                return I.call_fn(hits[0], args2, node)
+            # a provided (default) method of the trait itself
+            dflt = [p_ for p_ in I.F.fns if p_ == path]
+            if dflt:
+                return I.call_fn(dflt[0], args, node)
     if m is None:
         raise Unanalysable(f"no model for callee {path}", FX.short(node.get("sp")))
     f, places = m
@@ -591,6 +610,8 @@ def m_len(I, a, e, ci):
     v = I.deref(a[0])
     if isinstance(v, IterV):
         v = v.vec
+    if I.newtype_inner(v) is not None:
+        v = I.newtype_inner(v)
     if isinstance(v, Vec):
         return IntV(v.length())
     if isinstance(v, Bytes):
@@ -875,10 +896,63 @@ def eager_map_segment(I, s, f, off):
     return Seg(s.n, lambda jj, v0=v0, j0=j0: subst_val(v0, {j0: jj}))
 
 
+def _collect_result(I, it, e):
+    """`iter.map(|x| fallible(x)).collect::<Result<Vec<_>, E>>()`: the first Err aborts, otherwise the Ok payloads.
+    Each element is a chain ite(c1, Err e1, ite(c2, Err e2, .. Ok(v))); the conditions become exit guards at the places
+    where the map closure's trace has the corresponding (one-sided) alternatives - the same as a for loop with `?`."""
+    where = FX.short(e.get("sp"))
+    segs = it.vec.nonempty_segs()
+    stars = [x for x in I.trace.items if x[0] == "star" and x[2].get("where") == "map"]
+    out = []
+    for s_ in segs:
+        star = None
+        if s_.n != 1:
+            star = stars.pop(0) if len(stars) >= 1 and len(stars) >= len([t for t in segs if t.n != 1]) - len([o for o in out if o[0] != 1]) else (stars[-1] if stars else None)
+        j0 = star[2]["isym"] if star is not None and star[2].get("isym") is not None else sp.Integer(0)
+        el = I.deref(s_.f(j0))
+        conds = []
+        while isinstance(el, Ite) and isinstance(el.cond, Cond):
+            a_, b_ = I.deref(el.a), I.deref(el.b)
+            if isinstance(a_, Enum) and a_.variant == "Err":
+                conds.append((el.cond, a_))
+                el = b_
+            elif isinstance(b_, Enum) and b_.variant == "Err":
+                conds.append((el.cond.negate(), b_))
+                el = a_
+            else:
+                break
+        if not (isinstance(el, Enum) and el.variant == "Ok"):
+            raise Unanalysable(f"collect into Result: element is not a chain of early errors ending in Ok: {el!r}", where)
+        payload = el.payload[0] if el.payload else UNIT
+        items = star[1] if star is not None else I.trace.items
+        fnname = I.fn_stack[-1] if I.fn_stack else ""
+        for c_, err_ in conds:
+            placed = False
+            for k_, it_ in enumerate(items):
+                if it_[0] == "alt" and isinstance(it_[1], Cond) and it_[1].key() in (c_.key(), c_.negate().key()):
+                    then_aborts = it_[1].key() == c_.key()
+                    dead, live = (it_[2], it_[3]) if then_aborts else (it_[3], it_[2])
+                    if any(x[0] == "op" for x in dead):
+                        raise Unanalysable("collect into Result: the failing alternative has transcript effects", where)
+                    items[k_:k_ + 1] = [("guard", c_, err_, where, fnname)] + list(live)
+                    placed = True
+                    break
+            if not placed:
+                items.insert(0, ("guard", c_, err_, where, fnname))
+            I.learn(c_)
+        if s_.n == 1:
+            out.append((1, Seg(1, lambda jj, payload=payload: payload)))
+        else:
+            out.append((s_.n, Seg(s_.n, lambda jj, payload=payload, j0=j0: subst_val(payload, {j0: jj}))))
+    return Enum("Result", "Ok", [Vec([sg for _, sg in out])])
+
+
 @model("std::iter::Iterator::collect")
 def m_collect(I, a, e, ci):
     it = I.to_iter(a[0])
     ty = e.get("ty", "")
+    if ty.startswith("std::result::Result<std::vec::Vec"):
+        return _collect_result(I, it, e)
     if ty.startswith(LC_ADT):
         # FromIterator for the crate's own type: its by-value impl is interpreted on the iterator
         p = _local_impl(I, _LC_RX + r"std::iter::FromIterator<\(r1cs::linear_combination::Variable<\w+>, \w+\)>>::from_iter")
@@ -1543,3 +1617,42 @@ def m_last_first_mut(I, a, e, ci):
     if nonempty is not True:
         raise Unanalysable("first_mut/last_mut of a vector not known to be non-empty", FX.short(e.get("sp")))
     return Enum("Option", "Some", [I.elem_ref(a[0], sp.expand(ln - 1) if last else sp.Integer(0))])
+
+
+@model("rand::SeedableRng::from_seed")
+def m_from_seed2(I, a, e, ci):
+    return m_from_seed(I, a, e, ci)
+
+
+@model("std::option::Option::<T>::filter")
+def m_opt_filter(I, a, e, ci):
+    v, f = a
+
+    def g(x):
+        if x.variant != "Some":
+            return x
+        c = I.decide(I.as_cond(I.apply_closure(f, [x.payload[0]])))
+        none = Enum("Option", "None", [])
+        if isinstance(c, bool):
+            return x if c else none
+        return Ite(c, x, none)
+
+    if isinstance(v, Enum):
+        return g(v)
+    if isinstance(v, Ite) and isinstance(v.a, Enum) and isinstance(v.b, Enum):
+        ra, rb = g(v.a), g(v.b)
+        return ra if val_eq(ra, rb) else Ite(v.cond, ra, rb)
+    raise Unanalysable(f"Option::filter on {v!r}")
+
+
+@model("core::num::<impl usize>::checked_sub", "std::num::<impl usize>::checked_sub")
+def m_checked_sub(I, a, e, ci):
+    x, y = a
+    if not (isinstance(x, IntV) and isinstance(y, IntV)):
+        raise Unanalysable(f"checked_sub of {x!r}, {y!r}")
+    some = Enum("Option", "Some", [IntV(sp.expand(x.e - y.e))])
+    none = Enum("Option", "None", [])
+    c = I.decide(Cond("lt", sp.expand(x.e), sp.expand(y.e)))
+    if isinstance(c, bool):
+        return none if c else some
+    return Ite(c, none, some)
